@@ -180,7 +180,7 @@ def observe_c11(entry: dict, seed: int, opts: dict) -> dict:
   ref_size = entry['size']          # used only as a loop bound (a runaway iterator must stop somewhere)
   errs: List[str] = []
   o: Dict[str, Any] = {'spec': js, 'iter': [], 'lt': [], 'endnone': True, 'sweep': [], 'hassweep': False,
-                       'nexts': [], 'resume': [0, []], 'probes': [], 'random': [], 'errs': errs, 'size': -2}
+                       'nexts': [], 'resume': [0, []], 'probes': [], 'random': [], 'errs': errs, 'size': -2, 'recov': []}
   try:
     spec = build_space(js)
   except Exception as e:  # pylint: disable=broad-except
@@ -219,14 +219,36 @@ def observe_c11(entry: dict, seed: int, opts: dict) -> dict:
       try:
         algo = pg.geno.Sweeping()
         algo.setup(spec)
-        sw = []
+        sw, sw_dnas = [], []
         for d in algo:
           sw.append(project(d))
+          sw_dnas.append(d)
           if len(sw) >= cap:
             break
         o['sweep'] = sw
       except Exception as e:  # pylint: disable=broad-except
         errs.append('sweeping:' + _exc(e))
+        sw_dnas = []
+      # a fresh sweeper picks the work up through recover(history); the last `pending` proposals have no reward yet
+      n = len(sw_dnas)
+      if n >= 1:
+        rr = random.Random(seed * 31 + n)
+        for pending in (rr.randrange(1, 4), 0):
+          r = rr.randrange(max(1, n // 2), n + 1)
+          pending = min(pending, r)
+          try:
+            algo2 = pg.geno.Sweeping()
+            algo2.setup(spec)
+            algo2.recover([(d, None if i >= r - pending else 1.0) for i, d in enumerate(sw_dnas[:r])])
+            nprop = algo2.num_proposals
+            rest = []
+            for d in algo2:
+              rest.append(project(d))
+              if len(rest) >= cap:
+                break
+            o['recov'].append([r, pending, nprop, rest])
+          except Exception as e:  # pylint: disable=broad-except
+            errs.append('sweeping.recover:' + _exc(e))
     if 2 <= len(dnas) <= opts['resume_max']:
       pos = (seed % (len(dnas) - 1)) + 1
       try:
